@@ -179,6 +179,9 @@ pub mod distance;
 pub mod distr;
 pub mod tree;
 
+#[cfg(phylotree_verif)]
+pub mod verif;
+
 // type Error = Box<dyn std::error::Error>;
 // type Result<T> = std::result::Result<T, Error>;
 
@@ -203,7 +206,10 @@ pub fn generate_tree(
     // Add root
     tree.add(Node::default());
 
+    #[cfg(not(phylotree_verif))]
     let mut rng = thread_rng();
+    #[cfg(phylotree_verif)]
+    let mut rng = crate::verif::rng();
 
     let sampler = Sampler::new(sampler_type);
 
@@ -248,7 +254,10 @@ pub fn generate_yule(
     let mut tree = Tree::new();
     let root = tree.add(Node::default());
 
+    #[cfg(not(phylotree_verif))]
     let mut rng = thread_rng();
+    #[cfg(phylotree_verif)]
+    let mut rng = crate::verif::rng();
     let sampler = Sampler::new(sampler_type);
 
     let mut parent_candidates = vec![root];
@@ -290,7 +299,10 @@ pub fn generate_caterpillar(
     let mut tree = Tree::new();
     tree.add(Node::default());
 
+    #[cfg(not(phylotree_verif))]
     let mut rng = thread_rng();
+    #[cfg(phylotree_verif)]
+    let mut rng = crate::verif::rng();
     let sampler = Sampler::new(sampler_type);
 
     let mut parent = 0;
